@@ -4,6 +4,7 @@ package main
 // and render probe; plus a race-detector stress run of the same code (subprocess built with -race).
 
 import (
+	"context"
 	"encoding/hex"
 	"encoding/json"
 	"fmt"
@@ -13,6 +14,7 @@ import (
 	"sort"
 	"strings"
 	"sync"
+	"time"
 
 	. "verifh/lib"
 	"verifh/pipe"
@@ -37,9 +39,20 @@ func runRaceStress(seed uint64, tier string) {
 	if tier == "thorough" {
 		n = "120"
 	}
-	cmd := exec.Command(bin, fmt.Sprint(seed), n)
+	// the stress configurations take a few seconds each at most; a run that does not end is a pipeline that
+	// did not terminate (the property's last clause), reported as such instead of stalling the check
+	limit := 240 * time.Second
+	if tier == "thorough" {
+		limit = 1500 * time.Second
+	}
+	ctx, cancel := context.WithTimeout(context.Background(), limit)
+	defer cancel()
+	cmd := exec.CommandContext(ctx, bin, fmt.Sprint(seed), n)
 	cmd.Env = append(os.Environ(), "GORACE=log_path="+logPrefix+" halt_on_error=0 exitcode=0", "VERIF_WORK="+work)
 	out, err := cmd.CombinedOutput()
+	if ctx.Err() != nil {
+		err = fmt.Errorf("the stress run did not finish within %v: a configuration of the real pipeline + aggregation loop never terminated (deadlock)", limit)
+	}
 	races = 0
 	matches, _ := filepath.Glob(logPrefix + ".*")
 	for _, f := range matches {
